@@ -11,7 +11,6 @@ import (
 	"flag"
 	"fmt"
 	"math"
-	"math/big"
 	"sort"
 
 	"github.com/tdewolff/canvas"
@@ -333,50 +332,81 @@ func eval(c [][2]float64, t float64) [2]float64 {
 	return q[0]
 }
 
-// endParam recovers u such that piece = sub-curve [s,u] of c
-func endParam(c [][2]float64, piece [][2]float64, s float64) float64 {
-	if piece[len(piece)-1] == c[len(c)-1] {
-		return 1
+// subCtrl returns the control points of the sub-curve [s,u] of c (de Casteljau twice), in float arithmetic
+func subCtrl(c [][2]float64, s, u float64) [][2]float64 {
+	split := func(c [][2]float64, t float64) (l, r [][2]float64) {
+		q := make([][2]float64, len(c))
+		copy(q, c)
+		n := len(q)
+		l, r = make([][2]float64, n), make([][2]float64, n)
+		for k := 0; k < n; k++ {
+			l[k], r[n-1-k] = q[0], q[n-1-k]
+			for j := 0; j+1 < n-k; j++ {
+				q[j] = [2]float64{(1-t)*q[j][0] + t*q[j+1][0], (1-t)*q[j][1] + t*q[j+1][1]}
+			}
+		}
+		return
 	}
-	deg := float64(len(c) - 1)
+	l, _ := split(c, u)
+	if u == 0 {
+		return l
+	}
+	_, r := split(l, s/u)
+	return r
+}
+
+func ctrlDev(a, b [][2]float64) float64 {
+	d := 0.0
+	for k := range a {
+		d = math.Max(d, math.Max(math.Abs(a[k][0]-b[k][0]), math.Abs(a[k][1]-b[k][1])))
+	}
+	return d
+}
+
+// endParam recovers u such that piece = sub-curve [s,u] of c: candidates are the parameters at which the curve passes
+// through the piece's end point (several on folded or self-intersecting curves); the one whose blossom control points
+// match the piece best is returned.  The Coq checker re-validates whatever is returned.
+func endParam(c [][2]float64, piece [][2]float64, s float64) float64 {
 	if len(c) == 2 { // line: project the end point
+		if piece[1] == c[1] {
+			return 1
+		}
 		dx, dy := c[1][0]-c[0][0], c[1][1]-c[0][1]
-		x := new(big.Rat).SetFloat64(piece[1][0] - c[0][0])
-		_ = x
 		return ((piece[1][0]-c[0][0])*dx + (piece[1][1]-c[0][1])*dy) / (dx*dx + dy*dy)
 	}
-	d := deriv(c, s)
-	n2 := d[0]*d[0] + d[1]*d[1]
-	u := s
-	if n2 > 1e-18 {
-		u = s + deg*((piece[1][0]-piece[0][0])*d[0]+(piece[1][1]-piece[0][1])*d[1])/n2
-	}
-	// polish by Newton on |B(u) - end|^2 (also the fallback at a cusp)
+	deg := float64(len(c) - 1)
 	e := piece[len(piece)-1]
-	best, bu := math.Inf(1), u
-	try := func(u0 float64) {
-		u := u0
-		for it := 0; it < 30; it++ {
+	best, bu := math.Inf(1), s
+	consider := func(u float64) {
+		if u < s || u > 1 {
+			return
+		}
+		if d := ctrlDev(subCtrl(c, s, u), piece); d < best {
+			best, bu = d, u
+		}
+	}
+	newton := func(u float64) {
+		for it := 0; it < 40; it++ {
 			b, dd := eval(c, u), deriv(c, u)
-			g := (b[0]-e[0])*dd[0] + (b[1]-e[1])*dd[1]
 			h := dd[0]*dd[0] + dd[1]*dd[1]
 			if h == 0 {
 				break
 			}
-			u -= g / h
+			u -= ((b[0]-e[0])*dd[0] + (b[1]-e[1])*dd[1]) / h
 		}
-		b := eval(c, u)
-		if dist := math.Hypot(b[0]-e[0], b[1]-e[1]); dist < best && u > s-1e-12 && u <= 1+1e-12 {
-			best, bu = dist, u
+		consider(math.Min(u, 1))
+	}
+	consider(1)
+	d := deriv(c, s)
+	if n2 := d[0]*d[0] + d[1]*d[1]; n2 > 1e-18 {
+		newton(s + deg*((piece[1][0]-piece[0][0])*d[0]+(piece[1][1]-piece[0][1])*d[1])/n2)
+	}
+	if best > 1e-10 {
+		for k := 1; k <= 128; k++ {
+			newton(s + (1-s)*float64(k)/128)
 		}
 	}
-	try(u)
-	if best > 1e-9 {
-		for k := 1; k <= 64; k++ {
-			try(s + (1-s)*float64(k)/64)
-		}
-	}
-	return math.Min(bu, 1)
+	return bu
 }
 
 func scase(r *rng.R, i int, o *out.W) {
@@ -401,6 +431,9 @@ func scase(r *rng.R, i int, o *out.W) {
 			panic(fmt.Sprintf("Length() = %v", L))
 		}
 		n := r.Intn(5)
+		if b.fam == "collinear" {
+			n = 0 // the builder turns collinear remainders into LineTo records: pieces change kind; Length only
+		}
 		seen := map[float64]bool{}
 		for k := 0; k < n; k++ {
 			var t float64
